@@ -35,7 +35,10 @@ META = {
     "save_cog_with_dask(...).compute() files under synchronous / threaded / seeded random-topological "
     "schedulers are decoded with rasterio(GDAL) and tifffile and their IFD shapes, tile grids, tile order in "
     "the file and TileOffsets/TileByteCounts tags are compared with the model.",
-    "note": "Proved: layout, indexing, header patching and ordering (integer arithmetic).  Trusted / sampled, not "
+    "note": "Known finding (not repaired, reported as KNOWN-FINDING when listed): compression='none' never returns when a "
+    "pyramid level is exactly one tile (tifffile drains the endless empty-tile iterator); such configurations are probed "
+    "once per run and otherwise not generated.  Rotated GeoBoxes with a 1-pixel side are not generated (finding F12 of C09 "
+    "corrupts their GeoTIFF tags).  Proved: layout, indexing, header patching and ordering (integer arithmetic).  Trusted / sampled, not "
     "proved: codecs (imagecodecs), TIFF tag serialisation (tifffile), GDAL decode, dask executing every task once "
     "after its dependencies, overview resampling (rasterio warp), and the byte-stream assembly of the multi-part "
     "writer, which is property C06 (its theorem C06.main is assumed by name; that file bytes = header ++ tiles in "
@@ -625,7 +628,9 @@ def cfg_sig(cfg) -> str:
 
 def run_e2e(R: Run, cfg, workdir: str, tag: str):
     try:
-        facts, fails = e2e(cfg, workdir, tag)
+        facts, fails = with_timeout(180.0, lambda: e2e(cfg, workdir, tag))
+    except _Timeout:
+        facts, fails = {}, [("save-cog-does-not-finish", "writing / decoding one small image did not finish within 180 s")]
     except Exception as e:  # pylint: disable=broad-except
         facts, fails = {}, [("harness-e2e-exception", traceback.format_exc()[-800:])]
     sig = cfg_sig(cfg)
